@@ -3,7 +3,7 @@ CONSTANTS
   MaxCommits = 3
   MaxPersists = 3
   MaxClock = 2
-  DevSearchLo = FALSE
-  DevNoEmptyCheck = TRUE
+  DevSearchLo = TRUE
+  DevNoEmptyCheck = FALSE
 INVARIANTS TypeOK CleanReopenExact OpenRefusedUnlessMarked RepairYieldsLatestDurable NothingUncommitted AsofMonotone StepsInOrder SearchCorrect
 CHECK_DEADLOCK FALSE
